@@ -247,9 +247,20 @@ func (c16Engine) Exec(c *Case, job *Job) *Result {
 		Result string `json:"result"`
 	}
 	var slog []stepLog
+	// the slices the caller was handed, as handed (no copy), with what they contained at that moment:
+	// a later call must not change bytes an earlier call returned
+	type heldBytes struct {
+		b    []byte
+		hash uint64
+		step int
+	}
+	var held []heldBytes
 	for i, st := range c.History {
 		applyEnv(st.Env)
 		got := call(o.japi, st.Op)
+		if got.Err == "" && got.Panic == "" && len(got.Bytes) > 0 {
+			held = append(held, heldBytes{got.Bytes, fnv64(string(got.Bytes)), i})
+		}
 		ops = append(ops, st.Op)
 		res.count("call:"+st.Op, 1)
 		res.count(fmt.Sprintf("env:map-mode-%d", st.Env.MapMode), 1)
@@ -276,6 +287,20 @@ func (c16Engine) Exec(c *Case, job *Job) *Result {
 					i+1, st.Op, got.Short(), st.Op, want.Short(), prev, firstDiff(want.Text(), got.Text())))
 			break
 		}
+	}
+	for _, h := range held {
+		if res.Verdict == "violation" {
+			break
+		}
+		if fnv64(string(h.b)) != h.hash {
+			later := "a later call"
+			if h.step+1 < len(ops) {
+				later = strings.Join(ops[h.step+1:], ", ")
+			}
+			res.violate("nonrepeatable", c.History[h.step].Op+": returned-bytes-changed",
+				fmt.Sprintf("the %d bytes returned by call %d (%s) were changed in the caller's hands by %s: the returned slice aliases memory that a later accessor call writes into", len(h.b), h.step+1, c.History[h.step].Op, later))
+		}
+		res.count("probe:held-results-rechecked", 1)
 	}
 	if n := simrt.AmbientReads(); n > 0 {
 		res.count("probe:ambient-reads", int(n))
